@@ -1506,7 +1506,33 @@ struct Exec
 					static const char *ids [] = { "fmt ", "COMM", "desc", "kuki", "pakt", "VHDR", "ds64", "fact", "chan", "SSND", "data" } ;
 					std::vector<const Ck *> hit ;
 					for (auto &c : cks) for (auto id : ids) if (c.hdr + 4 <= sz && !memcmp (&d [(size_t) c.hdr], id, 4)) hit.push_back (&c) ;
-					if (!hit.empty ())
+					if (!hit.empty () && e.geti ("dup", 0))
+					{	// a second copy of such a chunk, one field changed, behind everything else or in front of another chunk: a reader that
+						// lets the later chunk win has sized its tables (peak, channel map, packet table) from the earlier one
+						// the chunk that fixes channel count and sample format (fmt / COMM / desc) if there is one
+						const Ck *cc = nullptr ;
+						for (auto h : hit) if (!cc && (!memcmp (&d [(size_t) h->hdr], "fmt ", 4) || !memcmp (&d [(size_t) h->hdr], "COMM", 4) || !memcmp (&d [(size_t) h->hdr], "desc", 4))) cc = h ;
+						const Ck &c = cc ? *cc : *hit [(size_t) (e.geti ("chunk", 0) % (int64_t) hit.size ())] ;
+						int64_t hl = c.pay - c.hdr, tot = hl + c.len + ((fam != 4 && (c.len & 1)) ? 1 : 0) ;
+						if (c.len >= 0 && c.hdr + tot <= sz && tot < 70000)
+						{	std::vector<uint8_t> cp (d.begin () + c.hdr, d.begin () + c.hdr + tot) ;
+							int w = e.geti ("width", 2) >= 4 ? 4 : 2 ; int64_t val = e.geti ("val", 0) ;
+							int64_t span = std::max<int64_t> (2, std::min<int64_t> (c.len, 48)) ; int64_t fo = 2 * (e.geti ("foff", 0) % (span / 2)) ;
+							bool be = fam != 2 ;
+							if (cc && e.geti ("chan", 0))		// the channel count of the copy
+							{	if (!memcmp (&d [(size_t) c.hdr], "fmt ", 4)) { fo = 2 ; w = 2 ; } else if (!memcmp (&d [(size_t) c.hdr], "COMM", 4)) { fo = 0 ; w = 2 ; } else { fo = 24 ; w = 4 ; }
+							}
+							for (int b = 0 ; b < w && hl + fo + b < (int64_t) cp.size () ; b++) cp [(size_t) (hl + fo + b)] = (uint8_t) (val >> (8 * (be ? w - 1 - b : b))) ;
+							int64_t at = e.geti ("at_end", 0) ? sz : cks [(size_t) (e.geti ("to", 0) % (int64_t) cks.size ())].hdr ;
+							d.insert (d.begin () + at, cp.begin (), cp.end ()) ;
+							if (fam != 4 && d.size () >= 8)
+							{	int64_t total = rd32 (4, be) + (int64_t) cp.size () ;
+								for (int b = 0 ; b < 4 ; b++) d [4 + b] = (uint8_t) ((uint64_t) total >> (8 * (be ? 3 - b : b))) ;
+							}
+							probe ("corrupt:dup_chunk") ;
+						}
+					}
+					else if (!hit.empty ())
 					{	// "primary": the first such chunk of the image (fmt / COMM / desc / VHDR come first)
 						const Ck &c = e.geti ("primary", 0) ? *hit [0] : *hit [(size_t) (e.geti ("chunk", 0) % (int64_t) hit.size ())] ;
 						int w = e.geti ("width", 2) >= 4 ? 4 : 2 ; int64_t val = e.geti ("val", 0) ;
